@@ -351,6 +351,9 @@ func resetTerms() {
 	termTab = map[termKey]*Term{}
 	nTerms = 0
 	varOrder = nil
+	uboundMemo = map[int][2]uint64{}
+	lemmas = nil
+	lemmaSeen = map[int]bool{}
 	True = mk("true", 0, nil, 1, "")
 	False = mk("false", 0, nil, 0, "")
 	bddNodes = []bddNode{{-1, 0, 0}, {-1, 1, 1}}
@@ -362,6 +365,7 @@ func resetTerms() {
 	bddSecs = 0
 	bddCalls = 0
 	nObjects = 0
+	curGuard = nil
 	wgCount = map[string]*Term{}
 }
 
